@@ -1002,7 +1002,8 @@ Definition process_answer (fuel : nat) (co : obj) (qid : nat) (a : ansinfo) (rq 
     end
   end.
 
-(* the loop over buffered answers; returns the requeue array (qids) *)
+(* the loop over buffered answers; returns the requeue array (qids).  4cd2b3e: the READING flag
+   stays set until read_answers is done with the connection (after the requeue flush) *)
 Fixpoint read_loop (fuel : nat) (n : nat) (co : obj) (rq : list nat) : M (list nat) :=
   match n with O => fail OutOfFuel | S n' =>
   (* ares_buf_tag(conn->in_buf) ... *)
@@ -1010,24 +1011,21 @@ Fixpoint read_loop (fuel : nat) (n : nat) (co : obj) (rq : list nat) : M (list n
   let! e := peek in let! e2 := peek2 in
   match e, e2 with
   | Some (TM qid sock a), _ =>
-      if negb (Nat.eqb sock (c_sock c)) then
-        (if fx_connread fx then store co (CConn (set_c_reading false c)) else ret tt) ;; ret rq else
+      if negb (Nat.eqb sock (c_sock c)) then ret rq else
       let! _ := pop in
       let! rq' := process_answer fuel co qid a rq in
       (* back in read_answers *)
       if fx_connread fx then
         let! c := get_conn co in
-        if c_closed c then free_obj co ;; ret rq'
+        if c_closed c then ret rq'      (* closed underneath us: stop using its buffer *)
         else read_loop fuel n' co rq'
       else read_loop fuel n' co rq'
   | Some TS, Some (TX sock st) =>
-      if negb (Nat.eqb sock (c_sock c)) then
-        (if fx_connread fx then store co (CConn (set_c_reading false c)) else ret tt) ;; ret rq else
-      (* read error, or process_answer failed (unparsable message): the connection is terminated *)
-      (if fx_connread fx then store co (CConn (set_c_reading false c)) else ret tt) ;;
+      if negb (Nat.eqb sock (c_sock c)) then ret rq else
+      (* process_answer failed (unparsable message), or the read that delivered the data ended
+         with a connection failure: the connection is terminated, before the requeue flush *)
       handle_conn_error fuel co true st ;; ret rq
-  | _, _ =>
-      (if fx_connread fx then store co (CConn (set_c_reading false c)) else ret tt) ;; ret rq
+  | _, _ => ret rq
   end end.
 
 Fixpoint flush_requeue (fuel : nat) (rq : list nat) : M unit :=
@@ -1045,7 +1043,12 @@ Definition read_answers (fuel : nat) (co : obj) : M unit :=
   let! c := get_conn co in
   (if fx_connread fx then store co (CConn (set_c_reading true c)) else ret tt) ;;
   let! rq := read_loop fuel fuel co [] in
-  flush_requeue fuel rq.
+  flush_requeue fuel rq ;;
+  (* conn->state_flags &= ~READING; if it was closed while we were using it, it is ours to release *)
+  if fx_connread fx then
+    let! c := get_conn co in
+    if c_closed c then free_obj co else store co (CConn (set_c_reading false c))
+  else ret tt.
 
 (* ---------------------------------------------------------------------------------- *)
 (* Not mutually recursive: ares_destroy, ares_process_fds                              *)
